@@ -638,3 +638,11 @@ for nm, what, props, nc in [
           tier=("thorough" if nm in ("c03_trap_puts", "c03_trap_putsp", "c03_trap_in_eof") else "quick"),
           functions=["RunState::trap", "Output::print", "Output::print_decimal", "Output::print_registers"], what=what,
           bounds="strings <= 3 words (PUTS) / 2 words (PUTSP), not running through 0xFFFF; input queue <= 2 characters")
+
+# negative controls (thorough tier): harnesses with a deliberately wrong oracle that MUST fail
+H("C02", "runtime::verif_h::c02_control_wrong_oracle_ldr", RT, tier="thorough", uf=True, mutant=True, timeout=1500,
+  functions=["RunState::ldr"], what="negative control: LDR vs an oracle with the offset off by one -- must be refuted", bounds="one instruction")
+H("C01", "air::verif_h::c01_control_wrong_oracle_offs6", AIR, tier="thorough", mutant=True, stubs=[FMT],
+  functions=["AsmLine::emit"], what="negative control: LDR emission vs an oracle without the 6-bit mask -- must be refuted", bounds="complete")
+H("C04", "air::verif_h::c01_control_wrong_oracle_offs6", AIR, tier="thorough", mutant=True, stubs=[FMT],
+  functions=["AsmLine::emit"], what="negative control: unmasked-offset oracle must be refuted", bounds="complete")
